@@ -721,3 +721,58 @@ def check_init_quiesce(ck, prog, cfgd, rule):
             ck.ob(rule, "%s:%s" % (f.name, fld), True, common.where(f),
                   "%s: every store to coder->%s (used by %s) follows %s or the allocation of the coder" % (
                       f.name, fld, visible[fld], "/".join(q["calls"])), key="QUIESCE:%s:%s" % (f.name, fld))
+
+
+def check_waitpred(ck, prog, cfgd, rule):
+    """Every field whose writers signal condition C (the `waited` table) is tested by the predicate of at
+    least one wait on C: a wake-up for a change that no waiter's predicate looks at sends the waiter back
+    to sleep."""
+    mentioned = {}
+    sites = {}
+    outq_fns = set(cfgd.get("requires", ())) | {"lzma_outq_has_buf", "lzma_outq_is_readable", "lzma_outq_is_empty"}
+    for f in prog.fns_in(cfgd["file"]):
+        for (b, i, c) in lock.wait_sites(f):
+            cr = cond_role(cfgd, c["args"][0])
+            if cr is None:
+                continue
+            dom = cfg.dominators(f)
+            cyc = cfg.reachable(f, cfg.succs(f, b.id))
+            blocks = set()
+            for d, blk in f.blocks.items():
+                if not blk.term or "cond" not in blk.term:
+                    continue
+                if (d in cyc and b.id in cfg.reachable(f, [d])) or d in dom.get(b.id, ()):
+                    blocks.add(d)
+            got = mentioned.setdefault(cr, set())
+            sites.setdefault(cr, []).append(common.where(f, c))
+            # locals that hold a snapshot of a field (in_filled = thr->in_filled) stand for it
+            snap = {}
+            for bb, ii, ee in f.iter_elems():
+                for (l, r, op, node) in ex.writes(ee):
+                    ls, rs = ex.strip(l), ex.strip(r)
+                    if ls is not None and ls.get("k") == "var" and rs is not None and rs.get("k") == "mem":
+                        snap.setdefault(ls["n"], set()).add((rs.get("rec"), rs["f"]))
+            for d in blocks:
+                cnd = f.blocks[d].term["cond"]
+                for x in ex.walk(cnd):
+                    if x.get("k") == "mem":
+                        got.add((x.get("rec"), x["f"]))
+                    if x.get("k") == "call" and x.get("fn") in outq_fns:
+                        got.add(("call", "outq"))
+                    if x.get("k") == "var":
+                        got.update(snap.get(x["n"], ()))
+    n = 0
+    for (rec, fld), cr in sorted(cfgd["waited"].items()):
+        if cr not in mentioned:
+            continue
+        n += 1
+        got = mentioned[cr]
+        ok = (rec, fld) in got or (rec == cfgd.get("outbuf_rec", "lzma_outbuf_s") and ("call", "outq") in got)
+        ck.ob(rule, "waitpred:%s.%s" % (rec.split("@")[0], fld), ok, sites[cr][0],
+              "writers of %s.%s signal condition %s; %s" % (
+                  rec.split("@")[0], fld, cr,
+                  "a wait on it tests the field" if ok else
+                  "no wait on that condition tests the field in its predicate: the woken thread goes back to sleep "
+                  "and the change (e.g. a worker's error) is not acted upon"),
+              key="WAITPRED:%s:%s" % (cr, fld))
+    return n
